@@ -13,7 +13,7 @@
 (* Typing discipline (TLC compares only like with like): "absent" is the   *)
 (* record [absent |-> TRUE]; optional strings use "None".                  *)
 (***************************************************************************)
-EXTENDS Naturals, Sequences, FiniteSets, TLC
+EXTENDS Integers, Sequences, FiniteSets, TLC
 
 CONSTANTS Studies,     \* study ids (strings)
           Clients,     \* worker ids (strings)
@@ -223,9 +223,11 @@ CheckEarlyStopping(st, s, t, env) ==
 \*          t2 |-> second trial id or 0 (written with the same cells as t)]
 \* (None = cell not mentioned).
 \* a trial is named by the request only through a metadatum written to it
+\* t2 = -1: the request also names a malformed trial id ("0"); the whole update is refused and nothing changes
 DeltaTrials(d) == IF \A c \in Cells : d.trial[c] = None THEN {} ELSE {x \in {d.t, d.t2} : x # 0}
 UpdateMetadata(st, s, d) ==
   IF StudyGuard(st, s) # None THEN Err(st, StudyGuard(st, s))
+  ELSE IF -1 \in DeltaTrials(d) THEN Err(st, "Unknown")
   ELSE IF \E x \in DeltaTrials(d) : ~Present(st, s, x)
          THEN Ok(st, "ErrorDetails")      \* reported in the response, nothing changes (all-or-nothing)
   ELSE LET st1 == [st EXCEPT !.study[s].meta = Merge(@, d.study)]
